@@ -19,7 +19,7 @@ Where a specification says `.any` on part of the domain the corollary carries th
 that the contract does not need (`hM` of the Kissel line functions: the code rejects the ten intra-M macros whatever
 the tables hold) the corollary is proved by case split and the side condition is dropped.
 
-The coverage table is at the end of the file.
+The Kissel cascade family (C08) is in C03c.lean.  The coverage table is at the end of this file.
 -/
 namespace Xrl
 namespace C03
@@ -283,5 +283,266 @@ theorem contract_LineEnergyComposed (l1 l2 : Int) (h1 : C10.Plain l1) (h2 : C10.
 
 end c10
 
+/-! ## "passing no error slot changes nothing but the reporting"
+
+`SameValue f` : the call without a slot (`NULL`) and the call with an empty slot return the same number (the value, or
+the sentinel 0 when the call fails — in which case the empty slot receives the error and `NULL` stays `NULL`).
+Stated for the functions of C03.lean as well. -/
+
+def SameValue (f : Slot → M (ℝ × Slot)) : Prop :=
+  ∃ v s, f Slot.null = Except.ok (v, Slot.null) ∧ f Slot.empty = Except.ok (v, s)
+
+theorem sameValue_of_meets {f : Slot → M (ℝ × Slot)} {x : Expect ℝ}
+    (h : ∀ error : Slot, error.isFull = false → Meets (f error) error x) (hx : x ≠ .any) : SameValue f :=
+  null_slot_same_value (h Slot.null rfl) (h Slot.empty rfl) hx
+
+theorem LineEnergy_ne_any (T : Tables ℝ) (Z m : Int) (hm : m ≠ Hdr.LB_LINE) : Spec.LineEnergy T Z m ≠ .any := by
+  unfold Spec.LineEnergy
+  split_ifs <;> try simp
+  · unfold wmean; simp only []; split_ifs <;> simp
+  · unfold wmean; simp only []; split_ifs <;> simp
+  · exact composed_ne_any T Z _ _
+  · split
+    · exact composed_ne_any T Z _ _
+    · exact C10.singleEnergy_ne_any T Z m
+
+section nullslot
+variable (T : Tables ℝ) (Z m shell : Int) (E pz θ φ : ℝ)
+
+theorem null_slot_AtomicWeight : SameValue (Gen.AtomicWeight T Z) :=
+  sameValue_of_meets (fun e he => C01.lookup_spec_AtomicWeight T Z e he) lookup1_ne_any
+theorem null_slot_ElementDensity : SameValue (Gen.ElementDensity T Z) :=
+  sameValue_of_meets (fun e he => C01.lookup_spec_ElementDensity T Z e he) lookup1_ne_any
+theorem null_slot_EdgeEnergy : SameValue (Gen.EdgeEnergy T Z m) :=
+  sameValue_of_meets (fun e he => C01.lookup_spec_EdgeEnergy T Z m e he) lookup2_ne_any
+theorem null_slot_FluorYield : SameValue (Gen.FluorYield T Z m) :=
+  sameValue_of_meets (fun e he => C01.lookup_spec_FluorYield T Z m e he) lookup2_ne_any
+theorem null_slot_JumpFactor : SameValue (Gen.JumpFactor T Z m) :=
+  sameValue_of_meets (fun e he => C01.lookup_spec_JumpFactor T Z m e he) lookup2_ne_any
+theorem null_slot_AtomicLevelWidth : SameValue (Gen.AtomicLevelWidth T Z m) :=
+  sameValue_of_meets (fun e he => C01.lookup_spec_AtomicLevelWidth T Z m e he) lookup2_ne_any
+theorem null_slot_CosKronTransProb : SameValue (Gen.CosKronTransProb T Z m) :=
+  sameValue_of_meets (fun e he => C01.lookup_spec_CosKronTransProb T Z m e he) lookup2_ne_any
+theorem null_slot_ElectronConfig : SameValue (Gen.ElectronConfig T Z m) :=
+  sameValue_of_meets (fun e he => C01.lookup_spec_ElectronConfig T Z m e he) lookup2_ne_any
+theorem null_slot_AugerRate : SameValue (Gen.AugerRate T Z m) :=
+  sameValue_of_meets (fun e he => C01.lookup_spec_AugerRate T Z m e he) lookup2_ne_any
+theorem null_slot_AugerYield : SameValue (Gen.AugerYield T Z m) :=
+  sameValue_of_meets (fun e he => C01.lookup_spec_AugerYield T Z m e he) lookup2_ne_any
+theorem null_slot_ElectronConfig_Biggs
+    (hlen : T.NShells_ComptonProfiles Z.toNat ≤ (T.UOCCUP_ComptonProfiles Z.toNat).len) : SameValue (Gen.ElectronConfig_Biggs T Z m) :=
+  sameValue_of_meets (fun e he => C01.lookup_spec_ElectronConfig_Biggs T Z m e he hlen) (ElectronConfig_Biggs_ne_any T Z m)
+theorem null_slot_RadRate : SameValue (Gen.RadRate T Z m) :=
+  sameValue_of_meets (fun e he => C10.rad_rate_spec T Z e he m) (C09.radRate_ne_any T Z m)
+theorem null_slot_CS_Photo
+    (hP : vecOkB (T.E_Photo_arr Z.toNat) (T.CS_Photo_arr Z.toNat) (T.CS_Photo_arr2 Z.toNat) (T.NE_Photo Z.toNat) = true) : SameValue (Gen.CS_Photo T Z E) :=
+  sameValue_of_meets (fun e he => C02.site_spec_CS_Photo T Z E e he hP) (by unfold Spec.CS_Photo; exact interp_ne_any)
+theorem null_slot_CS_Rayl
+    (hR : vecOkB (T.E_Rayl_arr Z.toNat) (T.CS_Rayl_arr Z.toNat) (T.CS_Rayl_arr2 Z.toNat) (T.NE_Rayl Z.toNat) = true) : SameValue (Gen.CS_Rayl T Z E) :=
+  sameValue_of_meets (fun e he => C02.site_spec_CS_Rayl T Z E e he hR) (by unfold Spec.CS_Rayl; exact interp_ne_any)
+theorem null_slot_CS_Compt
+    (hC : vecOkB (T.E_Compt_arr Z.toNat) (T.CS_Compt_arr Z.toNat) (T.CS_Compt_arr2 Z.toNat) (T.NE_Compt Z.toNat) = true) : SameValue (Gen.CS_Compt T Z E) :=
+  sameValue_of_meets (fun e he => C02.site_spec_CS_Compt T Z E e he hC) (by unfold Spec.CS_Compt; exact interp_ne_any)
+theorem null_slot_CS_Total
+    (hP : vecOkB (T.E_Photo_arr Z.toNat) (T.CS_Photo_arr Z.toNat) (T.CS_Photo_arr2 Z.toNat) (T.NE_Photo Z.toNat) = true) (hR : vecOkB (T.E_Rayl_arr Z.toNat) (T.CS_Rayl_arr Z.toNat) (T.CS_Rayl_arr2 Z.toNat) (T.NE_Rayl Z.toNat) = true) (hC : vecOkB (T.E_Compt_arr Z.toNat) (T.CS_Compt_arr Z.toNat) (T.CS_Compt_arr2 Z.toNat) (T.NE_Compt Z.toNat) = true) : SameValue (Gen.CS_Total T Z E) :=
+  sameValue_of_meets (fun e he => C05.cs_total_eq T Z E e he hP hR hC) (by unfold Spec.CS_Total; exact add3_ne_any)
+theorem null_slot_CS_Energy
+    (hs : vecOkB (T.E_Energy_arr Z.toNat) (T.CS_Energy_arr Z.toNat) (T.CS_Energy_arr2 Z.toNat) (T.NE_Energy Z.toNat) = true) : SameValue (Gen.CS_Energy T Z E) :=
+  sameValue_of_meets (fun e he => C02.site_spec_CS_Energy T Z E e he hs) (CS_Energy_ne_any T Z E)
+theorem null_slot_Fi
+    (hs : vecOkB (T.E_Fi_arr Z.toNat) (T.Fi_arr Z.toNat) (T.Fi_arr2 Z.toNat) (T.NE_Fi Z.toNat) = true) : SameValue (Gen.Fi T Z E) :=
+  sameValue_of_meets (fun e he => C02.site_spec_Fi T Z E e he hs) (Fi_ne_any T Z E)
+theorem null_slot_Fii
+    (hs : vecOkB (T.E_Fii_arr Z.toNat) (T.Fii_arr Z.toNat) (T.Fii_arr2 Z.toNat) (T.NE_Fii Z.toNat) = true) : SameValue (Gen.Fii T Z E) :=
+  sameValue_of_meets (fun e he => C02.site_spec_Fii T Z E e he hs) (Fii_ne_any T Z E)
+theorem null_slot_FF_Rayl
+    (hs : vecOkB (T.q_Rayl_arr Z.toNat) (T.FF_Rayl_arr Z.toNat) (T.FF_Rayl_arr2 Z.toNat) (T.Nq_Rayl Z.toNat) = true) : SameValue (Gen.FF_Rayl T Z E) :=
+  sameValue_of_meets (fun e he => C02.site_spec_FF_Rayl T Z E e he hs) (C05.FF_Rayl_ne_any T Z E)
+theorem null_slot_SF_Compt
+    (hs : vecOkB (T.q_Compt_arr Z.toNat) (T.SF_Compt_arr Z.toNat) (T.SF_Compt_arr2 Z.toNat) (T.Nq_Compt Z.toNat) = true) : SameValue (Gen.SF_Compt T Z E) :=
+  sameValue_of_meets (fun e he => C02.site_spec_SF_Compt T Z E e he hs) (C05.SF_Compt_ne_any T Z E)
+theorem null_slot_ComptonProfile
+    (hs : vecOkB (T.pz_ComptonProfiles Z.toNat) (T.Total_ComptonProfiles Z.toNat) (T.Total_ComptonProfiles2 Z.toNat)
+      (T.Npz_ComptonProfiles Z.toNat) = true)
+    (hN : 0 ≤ T.NShells_ComptonProfiles Z.toNat → 1 ≤ T.Npz_ComptonProfiles Z.toNat) : SameValue (Gen.ComptonProfile T Z pz) :=
+  sameValue_of_meets (fun e he => C02.site_spec_ComptonProfile T Z pz e he hs hN) (ComptonProfile_ne_any T Z pz)
+theorem null_slot_ComptonProfile_Partial
+    (hs : profileColOkB T Z shell = true) (hp : profileOkB T Z = true) : SameValue (Gen.ComptonProfile_Partial T Z shell pz) :=
+  sameValue_of_meets (fun e he => C02.site_spec_ComptonProfile_Partial T Z shell pz e he hs hp) (ComptonProfile_Partial_ne_any T Z shell pz)
+theorem null_slot_CSb_Photo_Partial
+    (hs : kisselShapeB T Z shell = true) : SameValue (Gen.CSb_Photo_Partial T Z shell E) :=
+  sameValue_of_meets (fun e he => C02.site_spec_CSb_Photo_Partial T Z shell E e he hs) (C05.CSb_Photo_Partial_ne_any T Z shell E)
+theorem null_slot_CS_Photo_Partial
+    (hs : kisselShapeB T Z shell = true)
+    (hW : ∀ b, Spec.CSb_Photo_Partial T Z shell E = .value b → Spec.AtomicWeight T Z ≠ .fails) : SameValue (Gen.CS_Photo_Partial T Z shell E) :=
+  sameValue_of_meets (fun e he => C05.cs_photo_partial_eq T Z shell E e he hs hW) (CS_Photo_Partial_ne_any T Z shell E)
+theorem null_slot_CSb_Total
+    (hP : vecOkB (T.E_Photo_arr Z.toNat) (T.CS_Photo_arr Z.toNat) (T.CS_Photo_arr2 Z.toNat) (T.NE_Photo Z.toNat) = true) (hR : vecOkB (T.E_Rayl_arr Z.toNat) (T.CS_Rayl_arr Z.toNat) (T.CS_Rayl_arr2 Z.toNat) (T.NE_Rayl Z.toNat) = true) (hC : vecOkB (T.E_Compt_arr Z.toNat) (T.CS_Compt_arr Z.toNat) (T.CS_Compt_arr2 Z.toNat) (T.NE_Compt Z.toNat) = true) : SameValue (Gen.CSb_Total T Z E) :=
+  sameValue_of_meets (fun e he => C05.barn_twin_CSb_Total T Z E e he hP hR hC) (by unfold Spec.CSb_Total; exact C05.toBarn_ne_any)
+theorem null_slot_CSb_Photo
+    (hP : vecOkB (T.E_Photo_arr Z.toNat) (T.CS_Photo_arr Z.toNat) (T.CS_Photo_arr2 Z.toNat) (T.NE_Photo Z.toNat) = true) : SameValue (Gen.CSb_Photo T Z E) :=
+  sameValue_of_meets (fun e he => C05.barn_twin_CSb_Photo T Z E e he hP) (by unfold Spec.CSb_Photo; exact C05.toBarn_ne_any)
+theorem null_slot_CSb_Rayl
+    (hR : vecOkB (T.E_Rayl_arr Z.toNat) (T.CS_Rayl_arr Z.toNat) (T.CS_Rayl_arr2 Z.toNat) (T.NE_Rayl Z.toNat) = true) : SameValue (Gen.CSb_Rayl T Z E) :=
+  sameValue_of_meets (fun e he => C05.barn_twin_CSb_Rayl T Z E e he hR) (by unfold Spec.CSb_Rayl; exact C05.toBarn_ne_any)
+theorem null_slot_CSb_Compt
+    (hC : vecOkB (T.E_Compt_arr Z.toNat) (T.CS_Compt_arr Z.toNat) (T.CS_Compt_arr2 Z.toNat) (T.NE_Compt Z.toNat) = true) : SameValue (Gen.CSb_Compt T Z E) :=
+  sameValue_of_meets (fun e he => C05.barn_twin_CSb_Compt T Z E e he hC) (by unfold Spec.CSb_Compt; exact C05.toBarn_ne_any)
+theorem null_slot_DCS_Rayl
+    (hs : vecOkB (T.q_Rayl_arr Z.toNat) (T.FF_Rayl_arr Z.toNat) (T.FF_Rayl_arr2 Z.toNat) (T.Nq_Rayl Z.toNat) = true) (hW : ∀ f, atQ (Spec.MomentTransf E θ) (Spec.FF_Rayl T Z) = .value f → Spec.AtomicWeight T Z ≠ .fails) : SameValue (Gen.DCS_Rayl T Z E θ) :=
+  sameValue_of_meets (fun e he => C05.dcs_rayl_eq T Z E θ e he hs hW) (by unfold Spec.DCS_Rayl; exact C05.dcsOf_ne_any)
+theorem null_slot_DCSP_Rayl
+    (hs : vecOkB (T.q_Rayl_arr Z.toNat) (T.FF_Rayl_arr Z.toNat) (T.FF_Rayl_arr2 Z.toNat) (T.Nq_Rayl Z.toNat) = true) (hW : ∀ f, atQ (Spec.MomentTransf E θ) (Spec.FF_Rayl T Z) = .value f → Spec.AtomicWeight T Z ≠ .fails) : SameValue (Gen.DCSP_Rayl T Z E θ φ) :=
+  sameValue_of_meets (fun e he => C05.dcsp_rayl_eq T Z E θ φ e he hs hW) (by unfold Spec.DCSP_Rayl; exact C05.dcsOf_ne_any)
+theorem null_slot_DCSb_Rayl
+    (hs : vecOkB (T.q_Rayl_arr Z.toNat) (T.FF_Rayl_arr Z.toNat) (T.FF_Rayl_arr2 Z.toNat) (T.Nq_Rayl Z.toNat) = true) (hW : ∀ f, atQ (Spec.MomentTransf E θ) (Spec.FF_Rayl T Z) = .value f → Spec.AtomicWeight T Z ≠ .fails) : SameValue (Gen.DCSb_Rayl T Z E θ) :=
+  sameValue_of_meets (fun e he => C05.barn_twin_DCSb_Rayl T Z E θ e he hs hW) (by unfold Spec.DCSb_Rayl; exact C05.toBarn_ne_any)
+theorem null_slot_DCSPb_Rayl
+    (hs : vecOkB (T.q_Rayl_arr Z.toNat) (T.FF_Rayl_arr Z.toNat) (T.FF_Rayl_arr2 Z.toNat) (T.Nq_Rayl Z.toNat) = true) (hW : ∀ f, atQ (Spec.MomentTransf E θ) (Spec.FF_Rayl T Z) = .value f → Spec.AtomicWeight T Z ≠ .fails) : SameValue (Gen.DCSPb_Rayl T Z E θ φ) :=
+  sameValue_of_meets (fun e he => C05.barn_twin_DCSPb_Rayl T Z E θ φ e he hs hW) (by unfold Spec.DCSPb_Rayl; exact C05.toBarn_ne_any)
+theorem null_slot_DCS_Compt
+    (hs : vecOkB (T.q_Compt_arr Z.toNat) (T.SF_Compt_arr Z.toNat) (T.SF_Compt_arr2 Z.toNat) (T.Nq_Compt Z.toNat) = true) (hW : ∀ f, atQ (Spec.MomentTransf E θ) (Spec.SF_Compt T Z) = .value f → Spec.AtomicWeight T Z ≠ .fails) : SameValue (Gen.DCS_Compt T Z E θ) :=
+  sameValue_of_meets (fun e he => C05.dcs_compt_eq T Z E θ e he hs hW) (by unfold Spec.DCS_Compt; exact C05.dcsOf_ne_any)
+theorem null_slot_DCSP_Compt
+    (hs : vecOkB (T.q_Compt_arr Z.toNat) (T.SF_Compt_arr Z.toNat) (T.SF_Compt_arr2 Z.toNat) (T.Nq_Compt Z.toNat) = true) (hW : ∀ f, atQ (Spec.MomentTransf E θ) (Spec.SF_Compt T Z) = .value f → Spec.AtomicWeight T Z ≠ .fails) : SameValue (Gen.DCSP_Compt T Z E θ φ) :=
+  sameValue_of_meets (fun e he => C05.dcsp_compt_eq T Z E θ φ e he hs hW) (by unfold Spec.DCSP_Compt; exact C05.dcsOf_ne_any)
+theorem null_slot_DCSb_Compt
+    (hs : vecOkB (T.q_Compt_arr Z.toNat) (T.SF_Compt_arr Z.toNat) (T.SF_Compt_arr2 Z.toNat) (T.Nq_Compt Z.toNat) = true) (hW : ∀ f, atQ (Spec.MomentTransf E θ) (Spec.SF_Compt T Z) = .value f → Spec.AtomicWeight T Z ≠ .fails) : SameValue (Gen.DCSb_Compt T Z E θ) :=
+  sameValue_of_meets (fun e he => C05.barn_twin_DCSb_Compt T Z E θ e he hs hW) (by unfold Spec.DCSb_Compt; exact C05.toBarn_ne_any)
+theorem null_slot_DCSPb_Compt
+    (hs : vecOkB (T.q_Compt_arr Z.toNat) (T.SF_Compt_arr Z.toNat) (T.SF_Compt_arr2 Z.toNat) (T.Nq_Compt Z.toNat) = true) (hW : ∀ f, atQ (Spec.MomentTransf E θ) (Spec.SF_Compt T Z) = .value f → Spec.AtomicWeight T Z ≠ .fails) : SameValue (Gen.DCSPb_Compt T Z E θ φ) :=
+  sameValue_of_meets (fun e he => C05.barn_twin_DCSPb_Compt T Z E θ φ e he hs hW) (by unfold Spec.DCSPb_Compt; exact C05.toBarn_ne_any)
+theorem null_slot_CSb_Photo_Total
+    (hs : ∀ s : Nat, s < 28 → kisselShapeB T Z (s : Int) = true) : SameValue (Gen.CSb_Photo_Total T Z E) :=
+  sameValue_of_meets (fun e he => C05.photo_total_eq T Z E e he hs) (C05.CSb_Photo_Total_ne_any T Z E)
+theorem null_slot_CS_Photo_Total
+    (hs : ∀ s : Nat, s < 28 → kisselShapeB T Z (s : Int) = true) (hW : ∀ v, Spec.CSb_Photo_Total T Z E = .value v → Spec.AtomicWeight T Z ≠ .fails) : SameValue (Gen.CS_Photo_Total T Z E) :=
+  sameValue_of_meets (fun e he => C05.cs_photo_total_eq' T Z E e he hs hW) (CS_Photo_Total_ne_any T Z E)
+theorem null_slot_CS_Total_Kissel
+    (hs : ∀ s : Nat, s < 28 → kisselShapeB T Z (s : Int) = true) (hW : ∀ v, Spec.CSb_Photo_Total T Z E = .value v → Spec.AtomicWeight T Z ≠ .fails) (hR : vecOkB (T.E_Rayl_arr Z.toNat) (T.CS_Rayl_arr Z.toNat) (T.CS_Rayl_arr2 Z.toNat) (T.NE_Rayl Z.toNat) = true) (hC : vecOkB (T.E_Compt_arr Z.toNat) (T.CS_Compt_arr Z.toNat) (T.CS_Compt_arr2 Z.toNat) (T.NE_Compt Z.toNat) = true) : SameValue (Gen.CS_Total_Kissel T Z E) :=
+  sameValue_of_meets (fun e he => C05.cs_total_kissel_eq' T Z E e he hs hR hC hW) (CS_Total_Kissel_ne_any T Z E)
+theorem null_slot_CSb_Total_Kissel
+    (hs : ∀ s : Nat, s < 28 → kisselShapeB T Z (s : Int) = true) (hW : ∀ v, Spec.CSb_Photo_Total T Z E = .value v → Spec.AtomicWeight T Z ≠ .fails) (hR : vecOkB (T.E_Rayl_arr Z.toNat) (T.CS_Rayl_arr Z.toNat) (T.CS_Rayl_arr2 Z.toNat) (T.NE_Rayl Z.toNat) = true) (hC : vecOkB (T.E_Compt_arr Z.toNat) (T.CS_Compt_arr Z.toNat) (T.CS_Compt_arr2 Z.toNat) (T.NE_Compt Z.toNat) = true) : SameValue (Gen.CSb_Total_Kissel T Z E) :=
+  sameValue_of_meets (fun e he => C05.barn_twin_CSb_Total_Kissel' T Z E e he hs hR hC hW) (CSb_Total_Kissel_ne_any T Z E)
+theorem null_slot_DCS_Thoms : SameValue (Gen.DCS_Thoms T θ) :=
+  sameValue_of_meets (fun e he => C12.closed_form_DCS_Thoms T θ e) (DCS_Thoms_ne_any θ)
+theorem null_slot_DCSP_Thoms : SameValue (Gen.DCSP_Thoms T θ φ) :=
+  sameValue_of_meets (fun e he => C12.closed_form_DCSP_Thoms T θ φ e) (DCSP_Thoms_ne_any θ φ)
+theorem null_slot_DCS_KN : SameValue (Gen.DCS_KN T E θ) :=
+  sameValue_of_meets (fun e he => C12.closed_form_DCS_KN T E θ e he) (DCS_KN_ne_any E θ)
+theorem null_slot_DCSP_KN : SameValue (Gen.DCSP_KN T E θ φ) :=
+  sameValue_of_meets (fun e he => C12.closed_form_DCSP_KN T E θ φ e he) (DCSP_KN_ne_any E θ φ)
+theorem null_slot_CS_KN : SameValue (Gen.CS_KN T E) :=
+  sameValue_of_meets (fun e he => C12.closed_form_CS_KN T E e he) (CS_KN_ne_any E)
+theorem null_slot_ComptonEnergy : SameValue (Gen.ComptonEnergy T E θ) :=
+  sameValue_of_meets (fun e he => C12.closed_form_ComptonEnergy T E θ e he) (ComptonEnergy_ne_any E θ)
+theorem null_slot_MomentTransf : SameValue (Gen.MomentTransf T E θ) :=
+  sameValue_of_meets (fun e he => C12.closed_form_MomentTransf T E θ e he) (MomentTransf_ne_any E θ)
+theorem null_slot_Jump_from_K : SameValue (Gen.Jump_from_K T Z E) :=
+  sameValue_of_meets (fun e he => C09.jump_from_K_spec T Z E e he) (C09.shellFactor_ne_any T Z _ E)
+theorem null_slot_Jump_from_L1 : SameValue (Gen.Jump_from_L1 T Z E) :=
+  sameValue_of_meets (fun e he => C09.jump_from_L1_spec T Z E e he) (C09.shellFactor_ne_any T Z _ E)
+theorem null_slot_Jump_from_L2
+    (hO : edgeOrderB T Z = true) : SameValue (Gen.Jump_from_L2 T Z E) :=
+  sameValue_of_meets (fun e he => C09.jump_from_L2_spec T Z E e he hO) (C09.shellFactor_ne_any T Z _ E)
+theorem null_slot_Jump_from_L3
+    (hO : edgeOrderB T Z = true) : SameValue (Gen.Jump_from_L3 T Z E) :=
+  sameValue_of_meets (fun e he => C09.jump_from_L3_spec T Z E e he hO) (C09.shellFactor_ne_any T Z _ E)
+theorem null_slot_CS_FluorShell
+    (hP : vecOkB (T.E_Photo_arr Z.toNat) (T.CS_Photo_arr Z.toNat) (T.CS_Photo_arr2 Z.toNat) (T.NE_Photo Z.toNat) = true) (hO : edgeOrderB T Z = true) : SameValue (Gen.CS_FluorShell T Z shell E) :=
+  sameValue_of_meets (fun e he => C09.fluorshell_jump_spec T Z E e he shell hP hO) (C09.fluorShell_ne_any T Z E shell)
+theorem null_slot_CS_FluorLine
+    (hP : vecOkB (T.E_Photo_arr Z.toNat) (T.CS_Photo_arr Z.toNat) (T.CS_Photo_arr2 Z.toNat) (T.NE_Photo Z.toNat) = true) (hO : edgeOrderB T Z = true) : SameValue (Gen.CS_FluorLine T Z m E) :=
+  sameValue_of_meets (fun e he => C09.fluorline_jump_spec T Z E e he m hP hO) (C09.fluorLine_ne_any T Z E m)
+theorem null_slot_CSb_FluorShell
+    (hP : vecOkB (T.E_Photo_arr Z.toNat) (T.CS_Photo_arr Z.toNat) (T.CS_Photo_arr2 Z.toNat) (T.NE_Photo Z.toNat) = true) (hO : edgeOrderB T Z = true) : SameValue (Gen.CSb_FluorShell T Z shell E) :=
+  sameValue_of_meets (fun e he => C09.barn_twin_CSb_FluorShell T Z E e he shell hP hO) (by unfold Spec.CSb_FluorShell; exact C05.toBarn_ne_any)
+theorem null_slot_CSb_FluorLine
+    (hP : vecOkB (T.E_Photo_arr Z.toNat) (T.CS_Photo_arr Z.toNat) (T.CS_Photo_arr2 Z.toNat) (T.NE_Photo Z.toNat) = true) (hO : edgeOrderB T Z = true) : SameValue (Gen.CSb_FluorLine T Z m E) :=
+  sameValue_of_meets (fun e he => C09.barn_twin_CSb_FluorLine T Z E e he m hP hO) (by unfold Spec.CSb_FluorLine; exact C05.toBarn_ne_any)
+
+/-- every macro except the L-beta group (no specification for it: see `contract_LineEnergy`) -/
+theorem null_slot_LineEnergy (hm : m ≠ Hdr.LB_LINE) : SameValue (Gen.LineEnergy T Z m) :=
+  sameValue_of_meets (fun e he => C10.line_energy_spec T Z e he m) (LineEnergy_ne_any T Z m hm)
+
+theorem null_slot_LineEnergyComposed (l1 l2 : Int) (h1 : C10.Plain l1) (h2 : C10.Plain l2) :
+    SameValue (Gen.LineEnergyComposed T Z l1 l2) :=
+  sameValue_of_meets (fun e he => by unfold Gen.LineEnergyComposed FUEL; exact C10.composed_spec T Z e he 4 l1 l2 h1 h2)
+    (composed_ne_any T Z l1 l2)
+
+end nullslot
+
 end C03
 end Xrl
+
+/-!
+## coverage
+
+The 136 definitions of `Xrl/Gen/F_*.lean` (`grep -h "^def " Xrl/Gen/F_*.lean`) = 129 C functions + 7 fuel-indexed
+workers the translator emits for the (mutually) recursive C functions.
+
+**covered in C03.lean** (16: `contract_<f>`; `no_ub_<f>` in C04.lean, for the four spline sites in C04b.lean;
+`null_slot_<f>` above)
+    AtomicLevelWidth, AtomicWeight, AugerRate, AugerYield, CosKronTransProb, CS_Compt, CS_Photo, CS_Rayl,
+    CS_Total, ElementDensity, EdgeEnergy, LineEnergy, FluorYield, JumpFactor, ElectronConfig, RadRate
+    — `LineEnergy` for every macro value except `LB_LINE`: `Spec.LineEnergy` is `.any` there (no specification of the
+    L-beta energy; the generated branch calls `CS_FluorLine` 13 times and has no `Meets` theorem).  The only function
+    with a `Meets` theorem whose specification makes no claim on part of the domain.
+
+**covered here, C03b.lean** (42: `contract_<f>`, `null_slot_<f>`; `no_ub_<f>` in C04b.lean)
+    ComptonProfile, ComptonProfile_Partial, ElectronConfig_Biggs, CS_Energy, CSb_Compt, CSb_FluorLine,
+    CSb_FluorShell, CSb_Photo, CSb_Rayl, CSb_Total, DCSPb_Compt, DCSPb_Rayl, DCSb_Compt, DCSb_Rayl, Jump_from_K,
+    Jump_from_L1, Jump_from_L2, Jump_from_L3, CS_FluorShell, CS_FluorLine, Fi, Fii, LineEnergyComposed,
+    CSb_Photo_Partial, CS_Photo_Partial, CSb_Photo_Total, CS_Photo_Total, CS_Total_Kissel, CSb_Total_Kissel,
+    DCSP_KN, DCSP_Compt, DCSP_Thoms, DCSP_Rayl, CS_KN, ComptonEnergy, MomentTransf, SF_Compt, FF_Rayl, DCS_KN,
+    DCS_Compt, DCS_Thoms, DCS_Rayl
+    — `LineEnergyComposed` (static helper of fluor_lines.c) only for the argument pattern of its theorem
+    `C10.composed_spec`: two plain line macros (`C10.Plain`), which is how `LineEnergy` calls it.
+    — `CSb_Photo_Partial` also under the weaker hypothesis "shape only if the call passes the guards"
+    (`contract_CSb_Photo_Partial_of`).
+
+**covered in C03c.lean** (52, the Kissel cascade family of C08: `contract_<f>`; `no_ub_<f>` in C04c.lean;
+`null_slot_<f>` for the 20 shell/line functions)
+    PL1_full_cascade_kissel, PL2_full_cascade_kissel, PL3_full_cascade_kissel, PM1_full_cascade_kissel,
+    PM2_full_cascade_kissel, PM3_full_cascade_kissel, PM4_full_cascade_kissel, PM5_full_cascade_kissel,
+    CS_FluorShell_Kissel_Cascade, CS_FluorLine_Kissel_Cascade, CS_FluorLine_Kissel, PL1_auger_cascade_kissel,
+    PL2_auger_cascade_kissel, PL3_auger_cascade_kissel, PM1_auger_cascade_kissel, PM2_auger_cascade_kissel,
+    PM3_auger_cascade_kissel, PM4_auger_cascade_kissel, PM5_auger_cascade_kissel,
+    CS_FluorShell_Kissel_Nonradiative_Cascade, CS_FluorLine_Kissel_Nonradiative_Cascade, PL1_rad_cascade_kissel,
+    PL2_rad_cascade_kissel, PL3_rad_cascade_kissel, PM1_rad_cascade_kissel, PM2_rad_cascade_kissel,
+    PM3_rad_cascade_kissel, PM4_rad_cascade_kissel, PM5_rad_cascade_kissel,
+    CS_FluorShell_Kissel_Radiative_Cascade, CS_FluorLine_Kissel_Radiative_Cascade, PL1_pure_kissel,
+    PL2_pure_kissel, PL3_pure_kissel, PM1_pure_kissel, PM2_pure_kissel, PM3_pure_kissel, PM4_pure_kissel,
+    PM5_pure_kissel, CS_FluorShell_Kissel_no_Cascade, CS_FluorLine_Kissel_no_Cascade, CS_FluorShell_Kissel,
+    CSb_FluorLine_Kissel, CSb_FluorLine_Kissel_Cascade, CSb_FluorLine_Kissel_Nonradiative_Cascade,
+    CSb_FluorLine_Kissel_Radiative_Cascade, CSb_FluorLine_Kissel_no_Cascade, CSb_FluorShell_Kissel,
+    CSb_FluorShell_Kissel_Cascade, CSb_FluorShell_Kissel_Nonradiative_Cascade,
+    CSb_FluorShell_Kissel_Radiative_Cascade, CSb_FluorShell_Kissel_no_Cascade
+    — in a file of their own because Spec/Cascade2 and Spec/JumpRatio both define `Spec.vacancy` and cannot be
+    imported together.  The per-shell theorems `C08.shell_<variant>_<k>` are already combined in
+    `C08.fluorshell_spec_<variant>` (every `shell`), the L-beta / single-line theorems in `C08.fluorline_spec_<variant>`;
+    the corollaries use those.  The side condition `hM` of the line theorems is discharged by case split.
+
+**NOT covered by a `contract_` theorem** (26)
+  * no error slot — the function returns a bare `double` (`M ℝ`), `Contract` does not apply; `no_ub_<f>` for every
+    argument and every table, without hypothesis, is in C04b.lean (3, from the value theorems of C11) and
+    C04c.lean (16, static helpers called by `prdata` only; C08 has value theorems for the `shell` arguments
+    `prdata` passes):
+    AugerYield2_prdata, AugerRate_prdata, AugerYield_prdata, PL1_get_cross_sections_constant_auger_only,
+    PL1_get_cross_sections_constant_full, PL2_get_cross_sections_constant_auger_only,
+    PL2_get_cross_sections_constant_full, PL3_get_cross_sections_constant_auger_only,
+    PL3_get_cross_sections_constant_full, PM1_get_cross_sections_constant_auger_only,
+    PM1_get_cross_sections_constant_full, PM2_get_cross_sections_constant_auger_only,
+    PM2_get_cross_sections_constant_full, PM3_get_cross_sections_constant_auger_only,
+    PM3_get_cross_sections_constant_full, PM4_get_cross_sections_constant_auger_only,
+    PM4_get_cross_sections_constant_full, PM5_get_cross_sections_constant_auger_only,
+    PM5_get_cross_sections_constant_full
+  * fuel-indexed workers (7): not C functions.  `Gen.<f> = Gen.<f>_fuel FUEL` by definition, so the theorems
+    about `<f>` are theorems about the worker at the fuel the public function passes; for arbitrary fuel the
+    statement is false (`fuel = 0` is the abort `Abort.fuel`):
+    LineEnergy_fuel, LineEnergyComposed_fuel, CS_FluorLine_Kissel_Cascade_fuel,
+    CS_FluorLine_Kissel_Nonradiative_Cascade_fuel, CS_FluorLine_Kissel_Radiative_Cascade_fuel,
+    CS_FluorLine_Kissel_no_Cascade_fuel, RadRate_fuel
+
+Totals: contract theorem for 110 of the 129 C functions (all 110 that take an error slot), no_ub theorem for all 129.
+-/
